@@ -550,3 +550,90 @@ def parts(tier: str) -> List[Part]:  # type: ignore[no-redef]
 
 def run_case(c: Dict[str, Any]) -> Outcome:  # type: ignore[no-redef]
     return run_serialized_errors(c) if c.get("ser_errors") else _run_core06c(c)
+
+
+# ---------------------------------------------------------------- sync task functions queued behind a saturated REAL thread pool
+#
+# "each task function observes the arguments of its own message only": also when plain `def` functions wait in the executor's queue
+# because every pool thread is busy (a burst larger than the pool).  One pool thread, 2-5 messages; the first call blocks on a gate until
+# all deliveries have handed their call to the pool.  Verdict: the argument each call received and the result under each id.
+
+def saturated_pool_cases() -> Any:
+    return st.fixed_dictionaries({"sat_pool": st.just(True), "n": st.integers(2, 5), "threads": st.sampled_from([1, 1, 2])})
+
+
+def run_saturated_pool(c: Dict[str, Any]) -> Outcome:
+    import threading
+    from concurrent.futures import ThreadPoolExecutor
+
+    from taskiq import InMemoryBroker
+
+    out = Outcome()
+    out.clauses_checked = ["C06.a", "C06.b"]
+    n = c["n"]
+    seen: List[Any] = []
+    gate = threading.Event()
+
+    async def main() -> Any:
+        ex = ThreadPoolExecutor(max_workers=c["threads"])
+        try:
+            b = InMemoryBroker()
+
+            def work(k: int, ctx: Context = TaskiqDepends()) -> Dict[str, Any]:
+                seen.append((ctx.message.task_id, k))
+                gate.wait(20)
+                return {"produced_by": k}
+
+            work.__module__ = __name__
+            b.register_task(work, task_name="sat.work")
+            r = Receiver(b, executor=ex, max_async_tasks=10, run_startup=False)
+            datas = [b.formatter.dumps(AsyncKicker("sat.work", b, {}).with_task_id(f"id{k}")._prepare_message(k)).message for k in range(n)]
+            tasks = [asyncio.ensure_future(r.callback(d_)) for d_ in datas]
+            for _ in range(20000):
+                if seen:
+                    break
+                await asyncio.sleep(0.0005)
+            for _ in range(200):
+                await asyncio.sleep(0)          # every delivery gets to hand its call to the (busy) pool
+            gate.set()
+            await asyncio.gather(*tasks, return_exceptions=True)
+            res = {}
+            for k in range(n):
+                if await b.result_backend.is_result_ready(f"id{k}"):
+                    res[f"id{k}"] = await b.result_backend.get_result(f"id{k}")
+            return res
+        finally:
+            gate.set()
+            ex.shutdown(wait=True)
+
+    loop = asyncio.new_event_loop()
+    loop.set_exception_handler(lambda l, ctx: None)
+    try:
+        res = loop.run_until_complete(main())
+    finally:
+        loop.close()
+    for tid, k in seen:
+        if tid != f"id{k}":
+            out.add("C06.a", f"the execution of message {tid} received argument {k} - the argument of message id{k} ({n} sync-function messages queued behind a pool of {c['threads']} thread(s))")
+            return out
+    for k in range(n):
+        r_ = res.get(f"id{k}")
+        if r_ is None or r_.is_err or r_.return_value != {"produced_by": k}:
+            out.add("C06.b", f"the result stored under id{k} is {short(getattr(r_, 'return_value', None), 80)} (is_err={getattr(r_, 'is_err', None)}); that message was sent with argument {k} "
+                             f"({n} sync-function messages queued behind a pool of {c['threads']} thread(s))")
+            return out
+    out.nontrivial = n > c["threads"]
+    out.classes = ["saturated_pool", f"threads={c['threads']}"]
+    return out
+
+
+_parts_core06d, _run_core06d = parts, run_case
+
+
+def parts(tier: str) -> List[Part]:  # type: ignore[no-redef]
+    return _parts_core06d(tier) + [Part("saturated_pool", "given", shards=2, examples=400 if tier == "thorough" else 30,
+                                        strategy=saturated_pool_cases, soft_deadline_s=900 if tier == "thorough" else 100)]
+
+
+def run_case(c: Dict[str, Any]) -> Outcome:  # type: ignore[no-redef]
+    return run_saturated_pool(c) if c.get("sat_pool") else _run_core06d(c)
